@@ -226,8 +226,9 @@ def main():
         # a paired Kani harness may provide a concrete failing input
         extra, tail = '', ' no-failing-input-found'
         for kr in kres:
-            if kr.get('pairs') == o.name and kr['status'] == 'failed' and kr.get('replay'):
-                extra, tail = kr['replay_text'], ''
+            if kr.get('pairs') and kr['pairs'].rsplit('/', 1)[0] == o.name.rsplit('/', 1)[0] and kr['status'] == 'failed' and kr.get('replay'):
+                extra = kr['replay_text']
+                tail = '' if kr.get('has_input') else ' no-failing-input-found'
         path = write_replay(pid, o, r, extra)
         violations.append((o.name, path, tail))
     for kr in kres:
@@ -239,7 +240,7 @@ def main():
             if hit:
                 known_hits.append((hit, None))
                 continue
-            if any(v[0] == kr.get('pairs') for v in violations):
+            if kr.get('pairs') and any(v[0].rsplit('/', 1)[0] == kr['pairs'].rsplit('/', 1)[0] for v in violations):
                 continue
             violations.append((kr['name'], kr['replay'], '' if kr.get('has_input') else ' no-failing-input-found'))
         elif kr['status'] == 'undecided':
